@@ -168,7 +168,8 @@ def run(tier):
         "curves for ALL pairs of points x ALL projective representatives x every receiver-aliasing pattern against the "
         "affine group law; traces: relation classes (generic, P=Q, P=-Q, P=O, Q=O, O+O, with G) x aliasing at 256 bits "
         "with random Z scaling, negate/select, safe vs fast encodings incl. leading-zero coordinates, decoding of every "
-        "prefix/length class, non-canonical and off-curve coordinates with receiver-unchanged check",
+        "prefix/length class, non-canonical x and y (incl. x = p over (0, sqrt b), word-structured overshoots) and "
+        "off-curve coordinates with receiver-unchanged check, a register machine of named points re-checked after every step",
         ["TLC; EC.tla (group axioms model-checked on a toy curve); accelerators compared with definitions every run",
          "256-bit points are sampled; completeness for all inputs rests on the extracted-program model at toy size"])
 
